@@ -1159,7 +1159,7 @@ impl Property for C14 {
     }
     fn runs(&self, tier: Tier) -> usize {
         match tier {
-            Tier::Quick => 12_000,
+            Tier::Quick => 20_000,
             Tier::Thorough => 2_500_000,
         }
     }
